@@ -480,7 +480,7 @@ def cms(name, sensors):
 
 
 def SENS(K=0, horizon=5, interval=1, cap=2, n=1, ocap=None, callbacks=2, cms_twice=True, second=None, ops=None,
-         placeholder=None, two_cms=False):
+         placeholder=None, two_cms=False, same_name=False):
     '''A processor under an output-part sensor, periodic sensors on a mutable object, a CMS.'''
     wo = {'x': [1, 1, 0]}
     devs = [src('S', 1, qualities=[1, 0.5, 0.25, 0.75], values=[1, 2, 3]), proc('M1', ['S'], 1, wo=wo, dq=-0.25, auto_repair='x'),
@@ -492,6 +492,8 @@ def SENS(K=0, horizon=5, interval=1, cap=2, n=1, ocap=None, callbacks=2, cms_twi
     names = ['P', 'O'] + (['P'] if cms_twice else [])
     if second is not None:
         devs.append(psensor('P2', second, [('o1', 'n')], 1, 1))
+        if same_name:
+            devs[-1]['asset_name'] = 'P'        # a different sensor that carries the same user-given name
         names.append('P2')
     devs.append(cms('C', names))
     if two_cms:
@@ -499,7 +501,7 @@ def SENS(K=0, horizon=5, interval=1, cap=2, n=1, ocap=None, callbacks=2, cms_twi
     if ops is None:
         ops = [('bump', 'o1'), ('fail', 'M1', 0), ('wo', 'M1', 'x'), ('restore', 'M1'), ('addsensor', 'C', 'P')]
     nm = (f'SENS[i{interval},c{cap},n{n},oc{ocap},cb{callbacks}{",2nd" + str(second) if second else ""}'
-          f'{",ph=" + placeholder if placeholder else ""}{",2cms" if two_cms else ""},K{K}]')
+          f'{",ph=" + placeholder if placeholder else ""}{",2cms" if two_cms else ""}{",samename" if same_name else ""},K{K}]')
     return spec(nm, devs, horizon, ops, K)
 
 
